@@ -29,10 +29,11 @@
   `split`/`splitlines`, the result strings of delegated `str` methods, `shared_atts`, the pieces the
   ChunkSplitter cuts for `width_aware_splitlines`.
 
-  Known finding D24: `FrozenAttributes.__init__` can be re-run on a run's attribute dict and changes it in
-  place. The model mirrors that (`Op.attsMutate _ _ "__init__" _` uses the primitive `setAtts`). The
-  full-strength statements are kept as `def C13_…_full_statement`; what is proved excludes exactly that
-  operation (`notInit`), and `C13_init_witness` proves in the model that it violates all three parts.
+  D24 (repaired in /repo, bca5639): `FrozenAttributes.__init__` could be re-run on a run's attribute dict and
+  changed it in place. It now raises like every other mutator, the model's `attsMutate` answers `.err`
+  for every regenerated mutator name, and `C13_guards_table` decides that the live class lets NO mutator
+  through. What an in-place change would do is kept as a regression fact in `C13_primitives_can_break`
+  (primitive `setAtts`).
 -/
 import Curtsies.Proofs.Heap
 import Curtsies.Generated.Heap
@@ -104,10 +105,10 @@ private theorem run_of_ok {u : UEnv} {α : Type} {c : Cmd α} {h : Heap} {Q : α
   obtain ⟨a, o', h', e, q⟩ := hk
   exact ⟨a, o', h', by simp [run, interp_unchecked c [] h _ e], q⟩
 
-/-- A program is well-scoped when each operation's operands exist when it runs (and it is not D24). -/
+/-- A program is well-scoped when each operation's operands exist when it runs. -/
 def Scoped (u : UEnv) : List Op → Heap → Prop
   | [], _ => True
-  | op :: rest, h => opLive h op ∧ notInit op ∧ ∀ res h', runOp u op h = some (res, h') → Scoped u rest h'
+  | op :: rest, h => opLive h op ∧ ∀ res h', runOp u op h = some (res, h') → Scoped u rest h'
 
 
 private theorem scoped_append {u : UEnv} (p1 p2 : List Op) : ∀ (h : Heap), Scoped u (p1 ++ p2) h →
@@ -116,8 +117,8 @@ private theorem scoped_append {u : UEnv} (p1 p2 : List Op) : ∀ (h : Heap), Sco
   | nil => intro h hs; exact ⟨trivial, fun rs h1 e => by simp [runProg] at e; rw [← e.2]; exact hs⟩
   | cons op rest ih =>
     intro h hs
-    obtain ⟨hl, hn, hrest⟩ := hs
-    refine ⟨⟨hl, hn, fun res h' e => (ih h' (hrest res h' e)).1⟩, ?_⟩
+    obtain ⟨hl, hrest⟩ := hs
+    refine ⟨⟨hl, fun res h' e => (ih h' (hrest res h' e)).1⟩, ?_⟩
     intro rs h1 e
     simp only [runProg] at e
     cases e1 : runOp u op h with
@@ -136,14 +137,10 @@ private theorem scoped_append {u : UEnv} (p1 p2 : List Op) : ∀ (h : Heap), Sco
 /-! ### decidable scoping -/
 
 def opLiveB (h : Heap) (op : Op) : Bool := (opRefs op).all (· < h.fmts.length)
-def notInitB : Op → Bool
-  | .attsMutate _ _ name _ => name != "__init__"
-  | _ => true
-
 /-- executable version of `Scoped` -/
 def scopedB (u : UEnv) : List Op → Heap → Bool
   | [], _ => true
-  | op :: rest, h => opLiveB h op && notInitB op &&
+  | op :: rest, h => opLiveB h op &&
     (match runOp u op h with
      | some (_, h') => scopedB u rest h'
      | none => true)
@@ -154,12 +151,11 @@ theorem scoped_of_scopedB (u : UEnv) (p : List Op) : ∀ (h : Heap), scopedB u p
   | cons op rest ih =>
     intro h hb
     simp only [scopedB, Bool.and_eq_true] at hb
-    obtain ⟨⟨h1, h2⟩, h3⟩ := hb
-    refine ⟨?_, ?_, ?_⟩
+    obtain ⟨h1, h3⟩ := hb
+    refine ⟨?_, ?_⟩
     · intro r hm
       simp only [opLiveB, List.all_eq_true, decide_eq_true_eq] at h1
       exact h1 r hm
-    · cases op <;> simp_all [notInit, notInitB]
     · intro res h' e
       rw [e] at h3
       exact ih h' h3
@@ -177,32 +173,25 @@ theorem C13_inv_empty (u : UEnv) : Inv u {} :=
 /-! ### C13_frame -/
 
 /-- FRAME. On every heap satisfying the invariant, every public operation whose operands exist
-    (`__init__` on an attribute dict excluded: D24) runs, returns existing objects, keeps the heap
+    runs, returns existing objects, keeps the heap
     well-formed, and EVERY FmtStr object that existed before it - operands, earlier results, values no
     longer referenced - still exists and has the same value afterwards. -/
-theorem C13_frame_partial (u : UEnv) (h : Heap) (op : Op) (hI : Inv u h) (hl : opLive h op) (hn : notInit op) :
+theorem C13_frame (u : UEnv) (h : Heap) (op : Op) (hI : Inv u h) (hl : opLive h op) :
     ∃ res h', runOp u op h = some (res, h') ∧ Inv u h' ∧ resLive h' res ∧
       ∀ r, r < h.fmts.length → r < h'.fmts.length ∧ h'.value r = h.value r := by
   have g := good_of_inv hI
-  obtain ⟨res, o', h', e, g', p, _, hr⟩ := run_of_ok (opCmd_ok g op hl hn)
+  obtain ⟨res, o', h', e, g', p, _, hr⟩ := run_of_ok (opCmd_ok g op hl)
   exact ⟨res, h', e, inv_of_good g', hr, fun r hr => ⟨p.fmt_lt hr, p.value g hr⟩⟩
-
-/-- full-strength statement (every operation, `__init__` included): false in the model, see
-    `C13_init_witness`. -/
-def C13_frame_full_statement : Prop :=
-  ∀ (u : UEnv) (h : Heap) (op : Op), Inv u h → opLive h op →
-    ∃ res h', runOp u op h = some (res, h') ∧ Inv u h' ∧ resLive h' res ∧
-      ∀ r, r < h.fmts.length → r < h'.fmts.length ∧ h'.value r = h.value r
 
 /-- Every view of an existing object is unchanged by an operation: per-character formatting, terminal
     string, length, text, width under any cwcwidth, and any other function of the runs (repr). -/
-theorem C13_frame_views (u : UEnv) (h : Heap) (op : Op) (hI : Inv u h) (hl : opLive h op) (hn : notInit op)
+theorem C13_frame_views (u : UEnv) (h : Heap) (op : Op) (hI : Inv u h) (hl : opLive h op)
     (res : Res) (h' : Heap) (e : runOp u op h = some (res, h')) (r : Nat) (hr : r < h.fmts.length) :
     (h'.value r).map cells = (h.value r).map cells ∧ (h'.value r).map render = (h.value r).map render ∧
     (h'.value r).map len = (h.value r).map len ∧ (h'.value r).map text = (h.value r).map text ∧
     (h'.value r).map (fmtWidth u) = (h.value r).map (fmtWidth u) ∧
     ∀ (β : Type) (view : FmtStr → β), (h'.value r).map view = (h.value r).map view := by
-  obtain ⟨res2, h2, e2, _, _, hv⟩ := C13_frame_partial u h op hI hl hn
+  obtain ⟨res2, h2, e2, _, _, hv⟩ := C13_frame u h op hI hl
   rw [e] at e2
   cases e2
   have := (hv r hr).2
@@ -218,8 +207,8 @@ theorem C13_frame_program (u : UEnv) (p : List Op) : ∀ (h : Heap), Inv u h →
   | nil => intro h hI _; exact ⟨[], h, rfl, hI, fun r hr => ⟨hr, rfl⟩⟩
   | cons op rest ih =>
     intro h hI hs
-    obtain ⟨hl, hn, hrest⟩ := hs
-    obtain ⟨res, h1, e1, hI1, _, hv1⟩ := C13_frame_partial u h op hI hl hn
+    obtain ⟨hl, hrest⟩ := hs
+    obtain ⟨res, h1, e1, hI1, _, hv1⟩ := C13_frame u h op hI hl
     obtain ⟨rs, h2, e2, hI2, hv2⟩ := ih h1 hI1 (hrest res h1 e1)
     refine ⟨res :: rs, h2, by simp [runProg, e1, e2], hI2, ?_⟩
     intro r hr
@@ -242,13 +231,10 @@ theorem C13_frame_program_split (u : UEnv) (p1 p2 : List Op) (h : Heap) (hI : In
 
 /-- CACHE. Every operation preserves "each memo field (`_unicode`, `_len`, `_s`, `_width` of every
     FmtStr object, `color_str` of every run object) is unset or equals the freshly computed view". -/
-theorem C13_cache_partial (u : UEnv) (h : Heap) (op : Op) (hI : Inv u h) (hl : opLive h op) (hn : notInit op) :
+theorem C13_cache (u : UEnv) (h : Heap) (op : Op) (hI : Inv u h) (hl : opLive h op) :
     ∃ res h', runOp u op h = some (res, h') ∧ CacheOK u h' := by
-  obtain ⟨res, h', e, hI', _⟩ := C13_frame_partial u h op hI hl hn
+  obtain ⟨res, h', e, hI', _⟩ := C13_frame u h op hI hl
   exact ⟨res, h', e, hI'.2⟩
-
-def C13_cache_full_statement : Prop :=
-  ∀ (u : UEnv) (h : Heap) (op : Op), Inv u h → opLive h op → ∃ res h', runOp u op h = some (res, h') ∧ CacheOK u h'
 
 /-- CACHE, observations: `str(f)`, `len(f)`, `f.s`, `f.width` return the freshly computed views of `f`'s
     value, whatever the state of the memo fields (and `f.width` raises exactly when a fresh computation
@@ -307,7 +293,7 @@ theorem C13_cache_observations (u : UEnv) (h : Heap) (a : Nat) (v : FmtStr) (hI 
 
 /-- Slicing/indexing on the heap returns what the value-level `getitem` (the model the C06 theorems are
     about) computes from the operand's value: the same error, or an object holding exactly that value.
-    (The part-level refinements for `splice` and `width_aware_slice` are `spliceParts_val`, `wasParts_val`.) -/
+    -/
 theorem C13_getitem_refines (u : UEnv) (h : Heap) (a : Nat) (v : FmtStr) (idx : Index) (hI : Inv u h)
     (ha : a < h.fmts.length) (hv : h.value a = some v) :
     ∃ res h', runOp u (.getitem a idx) h = some (res, h') ∧
@@ -331,6 +317,85 @@ theorem C13_getitem_refines (u : UEnv) (h : Heap) (a : Nat) (v : FmtStr) (idx : 
   obtain ⟨res, _, h', e, _, _, _, hr⟩ := run_of_ok this
   exact ⟨res, h', e, hr⟩
 
+
+/-- from a value triple of a command returning one object to `runOp` -/
+private theorem one_refines {u : UEnv} {h : Heap} {op : Op} {c : Cmd Nat} {X : FmtStr}
+    (hop : opCmd u op = c >>= fun r => Pure.pure (Res.one r)) (hI : Inv u h)
+    (hc : Good u [] h → Ok u c [] h (Std u [] h fun r _ h' => r < h'.fmts.length ∧ h'.value r = some X)) :
+    ∃ r h', runOp u op h = some (.refs [r], h') ∧ h'.value r = some X := by
+  have g := good_of_inv hI
+  have : Ok u (opCmd u op) [] h (Std u [] h fun res _ h' => ∃ r, res = .refs [r] ∧ h'.value r = some X) := by
+    rw [hop]
+    refine Std.bind (hc g) ?_
+    intro r o1 h1 g1 _ _ hr
+    exact Std.pure g1 ⟨r, rfl, hr.2⟩
+  obtain ⟨res, _, h', e, _, _, _, r, er, hr⟩ := run_of_ok this
+  exact ⟨r, h', by rw [← er]; exact e, hr⟩
+
+/-- `a.splice(new, start, end)` (start ≤ end, ESC-free `str` operand) returns an object whose value is the
+    value-level `splice` of the operands' values - the function the C09 theorems are about. -/
+theorem C13_splice_refines (u : UEnv) (h : Heap) (a : Nat) (new : Arg) (start : Nat) (end_ : Option Nat) (v w : FmtStr)
+    (hI : Inv u h) (ha : a < h.fmts.length) (hn : argLive h new) (hv : h.value a = some v) (hw : argVal h new = some w)
+    (hse : ¬ end_.getD start < start) :
+    ∃ r h', runOp u (.splice a new start end_) h = some (.refs [r], h') ∧
+      h'.value r = some (Curtsies.splice v w start end_) :=
+  one_refines (by simp only [opCmd, if_neg hse]) hI (fun g => splice_val g ha hn hv hw start end_)
+
+/-- `a.append(new)` -/
+theorem C13_append_refines (u : UEnv) (h : Heap) (a : Nat) (new : Arg) (v w : FmtStr)
+    (hI : Inv u h) (ha : a < h.fmts.length) (hn : argLive h new) (hv : h.value a = some v) (hw : argVal h new = some w) :
+    ∃ r h', runOp u (.append a new) h = some (.refs [r], h') ∧ h'.value r = some (Curtsies.append v w) :=
+  one_refines rfl hI (fun g => append_val g ha hn hv hw)
+
+/-- `a + b`, `a + "str"`, `"str" + a`, `a * n` (also `n * a`): the value-level functions of C06. -/
+theorem C13_add_refines (u : UEnv) (h : Heap) (a b : Nat) (va vb : FmtStr) (hI : Inv u h) (ha : a < h.fmts.length)
+    (hb : b < h.fmts.length) (hva : h.value a = some va) (hvb : h.value b = some vb) :
+    ∃ r h', runOp u (.add a b) h = some (.refs [r], h') ∧ h'.value r = some (Curtsies.add va vb) :=
+  one_refines rfl hI (fun g => add_val g ha hb hva hvb)
+
+theorem C13_addStr_refines (u : UEnv) (h : Heap) (a : Nat) (t : Text) (va : FmtStr) (hI : Inv u h) (ha : a < h.fmts.length)
+    (hva : h.value a = some va) :
+    (∃ r h', runOp u (.addStr a t) h = some (.refs [r], h') ∧ h'.value r = some (Curtsies.addStr va t)) ∧
+    (∃ r h', runOp u (.raddStr a t) h = some (.refs [r], h') ∧ h'.value r = some (Curtsies.raddStr va t)) :=
+  ⟨one_refines rfl hI (fun g => addStr_val g ha hva t), one_refines rfl hI (fun g => raddStr_val g ha hva t)⟩
+
+theorem C13_mul_refines (u : UEnv) (h : Heap) (a : Nat) (n : Int) (va : FmtStr) (hI : Inv u h) (ha : a < h.fmts.length)
+    (hva : h.value a = some va) :
+    ∃ r h', runOp u (.mul a n) h = some (.refs [r], h') ∧ h'.value r = some (Curtsies.mul va n) :=
+  one_refines rfl hI (fun g => mul_val g ha hva n)
+
+/-- `sep.join(items)`: items are FmtStr objects or ESC-free `str`s (`argVal`); `ws` are their values. -/
+theorem C13_join_refines (u : UEnv) (h : Heap) (sep : Nat) (items : List Arg) (vsep : FmtStr) (ws : List FmtStr)
+    (hI : Inv u h) (hs : sep < h.fmts.length) (hvs : h.value sep = some vsep) (hlive : ∀ x, x ∈ items → argLive h x)
+    (hws : items.map (argVal h) = ws.map some) :
+    ∃ r h', runOp u (.join sep items) h = some (.refs [r], h') ∧ h'.value r = some (Curtsies.join vsep ws) :=
+  one_refines rfl hI (fun g => join_val g hs hvs hlive hws)
+
+/-- `a.width_aware_slice(idx)`: the value-level `widthAwareSlice` of Model/Width.lean (C10), same error or
+    an object holding exactly that value. -/
+theorem C13_wslice_refines (u : UEnv) (h : Heap) (a : Nat) (v : FmtStr) (idx : Index) (hI : Inv u h)
+    (ha : a < h.fmts.length) (hv : h.value a = some v) :
+    ∃ res h', runOp u (.wslice a idx) h = some (res, h') ∧
+      match Curtsies.widthAwareSlice u v idx with
+      | .error e => res = .err e
+      | .ok w => ∃ r, res = .refs [r] ∧ h'.value r = some w := by
+  have g := good_of_inv hI
+  have : Ok u (opCmd u (.wslice a idx)) [] h (Std u [] h fun res _ h' =>
+      match Curtsies.widthAwareSlice u v idx with
+      | .error e => res = .err e
+      | .ok w => ∃ r, res = .refs [r] ∧ h'.value r = some w) := by
+    refine Std.bind (widthAwareSlice_val g ha hv idx) ?_
+    intro x o1 h1 g1 _ _ hx
+    refine Std.pure g1 ?_
+    cases hg : Curtsies.widthAwareSlice u v idx with
+    | error e => rw [hg] at hx; simp only at hx; rw [hx]; rfl
+    | ok w =>
+      rw [hg] at hx
+      obtain ⟨r, e, _, hr⟩ := hx
+      exact ⟨r, by rw [e]; rfl, hr⟩
+  obtain ⟨res, _, h', e, _, _, _, hr⟩ := run_of_ok this
+  exact ⟨res, h', e, hr⟩
+
 /-! ### C13_guards
 
   These statements only RECORD how the model reads formatstring.py:77-87 and 720-721 (`opCmd` answers
@@ -346,21 +411,12 @@ theorem C13_getitem_refines (u : UEnv) (h : Heap) (a : Nat) (v : FmtStr) (idx : 
 theorem C13_guards_setitem (u : UEnv) (h : Heap) (a : Nat) :
     runOp u (.setitem a) h = some (.err .otherException, h) := rfl
 
-/-- GUARD (model's reading). Every regenerated mutator name of a run's attribute dict other than
-    `__init__` raises and leaves the heap unchanged. -/
-theorem C13_guards_partial (u : UEnv) (h : Heap) (a k : Nat) (name : String) (after : Atts)
-    (_hm : name ∈ Generated.dictMutators) (hn : name ≠ "__init__") :
-    runOp u (.attsMutate a k name after) h = some (.err .otherException, h) := by
-  simp [runOp, run, opCmd, hn]
-  exact ⟨[], rfl⟩
+/-- GUARD (model's reading). Every regenerated mutator name of a run's attribute dict (`__init__` on the
+    initialised dict included) raises and leaves the heap unchanged. -/
+theorem C13_guards (u : UEnv) (h : Heap) (a k : Nat) (name : String) (_hm : name ∈ Generated.dictMutators) :
+    runOp u (.attsMutate a k name) h = some (.err .otherException, h) := rfl
 
-/-- full-strength statement: every mutator name of the regenerated list. False in the model for
-    `__init__` (D24). -/
-def C13_guards_full_statement : Prop :=
-  ∀ (u : UEnv) (h : Heap) (a k : Nat) (name : String) (after : Atts), name ∈ Generated.dictMutators →
-    runOp u (.attsMutate a k name after) h = some (.err .otherException, h)
-
-/-- `__init__` is one of the regenerated mutator names (so the full statement covers it). -/
+/-- `__init__` is one of the regenerated mutator names (so `C13_guards` covers it). -/
 theorem C13_guards_init_listed : "__init__" ∈ Generated.dictMutators := by decide
 
 /-! ### concrete instances -/
@@ -374,8 +430,8 @@ private def wProg : List Op := [.lit [⟨['a'], redBold⟩], .obsStr 0]
 private def wRendered : Text := seq 31 ++ (seq 1 ++ ['a'] ++ seq 0) ++ seq 39
 private def hW : Heap :=
   ⟨[⟨['a'], redBold, some wRendered⟩], [[0]], [⟨0, some wRendered, none, none, none⟩]⟩
-/-- `f.chunks[0].atts.__init__({'bold': False})` -/
-private def initOp : Op := .attsMutate 0 0 "__init__" redNotBold
+/-- the heap `hW` after an in-place change of the run's attributes to `{'fg': 31, 'bold': False}` (what the
+    re-callable `__init__` of D24 did) -/
 private def hW' : Heap :=
   ⟨[⟨['a'], redNotBold, some wRendered⟩], [[0]], [⟨0, some wRendered, none, none, none⟩]⟩
 
@@ -387,41 +443,18 @@ private theorem hW_inv : Inv u0 hW := by
   cases e
   exact hI
 
-/-- WITNESS for D24 in the model: on the reachable heap `f = bold(red('a')); str(f)`, re-running
-    `__init__` on the run's attribute dict does not raise, changes the value of `f`, and leaves the
-    memoised terminal string stale - the excluded operation violates guards, frame and cache. -/
-theorem C13_init_witness :
-    Inv u0 hW ∧ opLive hW initOp ∧ runOp u0 initOp hW = some (.refs [], hW') ∧
-    hW'.value 0 ≠ hW.value 0 ∧ ¬ CacheOK u0 hW' := by
-  refine ⟨hW_inv, ?_, by decide +kernel, by decide +kernel, ?_⟩
-  · intro r hm
-    simp [initOp, opRefs] at hm
-    subst hm; decide
-  · intro c
-    have := (c.fmt 0 ⟨0, some wRendered, none, none, none⟩ [⟨['a'], redNotBold⟩] rfl (by decide +kernel)).1 wRendered rfl
-    revert this
-    decide +kernel
-
-theorem C13_guards_full_statement_false : ¬ C13_guards_full_statement := by
-  intro hf
-  have := hf u0 hW 0 0 "__init__" redNotBold C13_guards_init_listed
-  rw [show Op.attsMutate 0 0 "__init__" redNotBold = initOp from rfl, C13_init_witness.2.2.1] at this
+/-- REGRESSION for D24 (repaired): on the reachable heap `f = bold(red('a')); str(f)`, an in-place change of
+    the run's attribute dict (primitive `setAtts`, what `atts.__init__({'bold': False})` used to do) runs in
+    the plain semantics, changes the value of `f`, leaves the memoised terminal string stale, and is
+    refused by the checked interpreter - no operation of the library may do it. -/
+theorem C13_inplace_atts_would_break :
+    Inv u0 hW ∧ run u0 (Heap.setAtts 0 redNotBold) hW = some ((), hW') ∧
+    hW'.value 0 ≠ hW.value 0 ∧ ¬ CacheOK u0 hW' ∧ interp u0 true (Heap.setAtts 0 redNotBold) [] hW = none := by
+  refine ⟨hW_inv, by decide +kernel, by decide +kernel, ?_, by decide +kernel⟩
+  intro c
+  have := (c.fmt 0 ⟨0, some wRendered, none, none, none⟩ [⟨['a'], redNotBold⟩] rfl (by decide +kernel)).1 wRendered rfl
   revert this
   decide +kernel
-
-theorem C13_frame_full_statement_false : ¬ C13_frame_full_statement := by
-  intro hf
-  obtain ⟨res, h', e, _, _, hv⟩ := hf u0 hW initOp C13_init_witness.1 C13_init_witness.2.1
-  rw [C13_init_witness.2.2.1] at e
-  cases e
-  exact C13_init_witness.2.2.2.1 (hv 0 (by decide)).2
-
-theorem C13_cache_full_statement_false : ¬ C13_cache_full_statement := by
-  intro hf
-  obtain ⟨res, h', e, hc⟩ := hf u0 hW initOp C13_init_witness.1 C13_init_witness.2.1
-  rw [C13_init_witness.2.2.1] at e
-  cases e
-  exact C13_init_witness.2.2.2.2 hc
 
 /-- The primitives are NOT safe by themselves. On the heap holding `f = bold(red('a'))` with `str(f)`
     memoised: extending or clearing the run list `f.chunks` in place changes `f`'s value, and writing a
